@@ -25,7 +25,7 @@ def dense_case(cid, Phi, Psi, w, wc, wt, ft=True):
     Kt = Psi @ Phi.T
     c = {"id": cid, "kind": "dense", "Phi": Phi.astype(int).tolist(), "Psi": Psi.astype(int).tolist(), "w": [] if w is None else [int(v) for v in w],
          "wc": bool(wc), "wt": bool(wt), "raised": False, "Ktrain": [], "Ktest": [], "Kft": [], "scaleq": 0,
-         "T": [], "Kmm": [], "P": [], "Knmq": [], "Tft": [], "trpos": False}
+         "T": [], "Kmm": [], "P": [], "Knmq": [], "Tft": [], "trpos": False, "finite": True}
     sw = None if w is None else np.asarray(w, float)
     try:
         with warnings.catch_warnings():
@@ -52,7 +52,7 @@ def sparse_case(cid, Phi, A, w, wc, wt):
     Knm, Kmm = Phi @ A.T, A @ A.T
     c = {"id": cid, "kind": "sparse", "Phi": Phi.astype(int).tolist(), "Psi": [], "w": [] if w is None else [int(v) for v in w],
          "wc": bool(wc), "wt": bool(wt), "raised": False, "Ktrain": [], "Ktest": [], "Kft": [], "scaleq": 0,
-         "T": [], "Kmm": q(Kmm, S), "P": [], "Knmq": q(Knm, S), "Tft": [], "trpos": False}
+         "T": [], "Kmm": q(Kmm, S), "P": [], "Knmq": q(Knm, S), "Tft": [], "trpos": False, "finite": True}
     sw = None if w is None else np.asarray(w, float)
     try:
         with warnings.catch_warnings():
@@ -60,10 +60,14 @@ def sparse_case(cid, Phi, A, w, wc, wt):
             sk = SparseKernelCenterer(with_center=wc, with_trace=wt).fit(Knm.copy(), Kmm.copy(), sample_weight=sw)
             T = sk.transform(Knm.copy())
             Tft = SparseKernelCenterer(with_center=wc, with_trace=wt).fit_transform(Knm.copy(), Kmm.copy(), sample_weight=sw)
-        if not np.all(np.isfinite(T)) or not np.all(np.isfinite(Tft)):
-            return None       # zero Nystrom trace: nothing to normalise
-        c["T"], c["Tft"] = q(T, S), q(Tft, S)
         c["P"] = q(np.linalg.pinv(Kmm, 1e-12), S)       # witness, verified by the specification
+        if not np.all(np.isfinite(T)) or not np.all(np.isfinite(Tft)):
+            # a vanishing Nystrom trace makes the implementation divide by zero; whether the trace of the INPUT vanishes is
+            # decided by the specification - a non-finite result for any other input is a violation
+            c["finite"] = False
+            c["T"] = [[0] * Knm.shape[1]] * Knm.shape[0]
+            return c
+        c["T"], c["Tft"] = q(T, S), q(Tft, S)
         c["trpos"] = True
     except Exception as e:  # noqa
         c["raised"] = True
@@ -100,7 +104,7 @@ def gen_enum(args):
     return [dense_case("e%d" % k, e["Phi"], e["Psi"], e["w"] or None, e["wc"], e["wt"], ft=False) for k, e in cfgs]
 
 
-KEYS = ("id", "kind", "Phi", "Psi", "w", "wc", "wt", "raised", "Ktrain", "Ktest", "Kft", "scaleq", "T", "Kmm", "P", "Knmq", "Tft", "trpos")
+KEYS = ("id", "kind", "Phi", "Psi", "w", "wc", "wt", "raised", "Ktrain", "Ktest", "Kft", "scaleq", "T", "Kmm", "P", "Knmq", "Tft", "trpos", "finite")
 
 
 def strip(c):
